@@ -13,23 +13,24 @@ CFG = {
                   "pinned map order admits a spurious execution (witness). The model is tied to the Go code on every run by "
                   "evaluating it (vm_compute) on the implementation's histories (value, Version(), State(), execution counter "
                   "of ALL nodes after EVERY operation) and by a direct oracle on the implementation's output",
-    "level_note": "read_fresh_three_outcomes_partial: value and genuine-panic directions proved, the converse (a cached node would not panic from scratch) is checked on every read by prop_ok (eval_p) but not proved. Trusted: Coq kernel + vm_compute; hand-written model tied by differential correspondence only (generator "
+    "level_note": "Totality of reads and three-outcome freshness (value / error-value / panic, both directions) are proved; the panic theorems assume a stable enumeration order (any-order: value direction only). Trusted: Coq kernel + vm_compute; hand-written model tied by differential correspondence only (generator "
                   "quality bounds it); node values are ints and processors are harness-defined (order-sensitive polynomial "
                   "hash); the theorems quantify over arbitrary processor functions that read every input port in "
                   "declaration order; cycles are outside the property (the Go code does not terminate on them)",
     "technique": "Coq proof (invariants over operation histories of a fuel-recursive model of Struct.Value/Outdated) + vm_compute correspondence check",
     "design_ref": "DESIGN.md §4 C11, §5 entry 12",
     "n_quick": 150, "n_thorough": 1000,
-    "rule": "11 fixed histories (4-input node with 240 idle reads, 12-element array port with delete/append/clear, upstream "
+    "rule": "12 fixed histories (4-input node with 240 idle reads, 12-element array port with delete/append/clear, upstream "
             "re-wiring, zero-input nodes, chain read repeatedly, only-the-last-dependency changes, failing node in a "
             "non-terminal position with the parameter toggling between rejected and accepted values and consumers read "
             "without reading the failed node, node with two array ports and plain ports before/between/after them at "
             "pairwise different versions with 240 idle reads, prefix-sharing names I/In.k/In2/Ina/Inb.k with 200 idle "
             "reads, PANICKING node shared by several consumers (panic, panic again, other consumer, partial commit of an "
             "earlier input, recovery), node with input fields declared as one-method interface / any / embedding "
-            "interface next to a NodeOutput field) + random histories of "
+            "interface next to a NodeOutput field, slice/map/struct-valued parameter.Value nodes with update messages that "
+            "are REJECTED after a valid prefix) + random histories of "
             "30-90 (thorough 40-220) operations on graphs of 4-12 (thorough 4-40) nodes of 10 harness-defined struct kinds, one third of them with a processor that returns an error when its hash is divisible by 3, one quarter with a processor that panics when it is divisible by 5 (the harness recovers the panic at the read: third outcome) "
-            "(1-6 scalar ports, array ports, mixed) and both repository parameter kinds (parameter.Value, nodes.ValueNode); "
+            "(1-6 scalar ports, array ports, mixed) and both repository parameter kinds (parameter.Value[int], nodes.ValueNode) plus parameter.Value[[]int] / [map[string]int] / [struct] seen through an int-hash adapter; rejected update messages 4%; "
             "shapes chain / diamond / array fan-in (9-15 connections, names sort V.10 < V.2) / scalar fan-in / shared "
             "subgraph / random; operations: reads 34%, parameter updates 18% (1/6 with the same value), connects 20%, "
             "disconnects 10% (array delete at index, '+k', '0k', clear), runs of 3-10 idle reads 8%, invalid port names / "
